@@ -1,0 +1,114 @@
+//go:build verif
+// +build verif
+
+package simdjson
+
+import (
+	"sync/atomic"
+	"unsafe"
+)
+
+// Verification hooks. Only compiled with the "verif" build tag; see
+// verif_hooks_off.go for the no-op used by every normal build.
+
+// VerifEvent identifies an instrumentation point.
+type VerifEvent int
+
+const (
+	// VerifEvPath: parseMessage chose its path. a = 1 async / 0 sync, b = len(Message).
+	verifEvPath VerifEvent = iota
+	// VerifEvAcquire: stage 1 took an index buffer. a = sequence number, b = slot.
+	verifEvAcquire
+	// VerifEvStrip: stage 1 carried a dangling index over to the next buffer. a = stripped value.
+	verifEvStrip
+	// VerifEvSend: stage 1 is about to send a buffer. a = length.
+	verifEvSend
+	// VerifEvTerm: stage 1 is about to send the terminator.
+	verifEvTerm
+	// VerifEvRelease: stage 2 is done with its current buffer and about to receive.
+	verifEvRelease
+	// VerifEvRecv: stage 2 received. a = index field (^0 for the terminator), b = length.
+	verifEvRecv
+	// VerifEvStage2Exit: stage 2 failed and is about to drain. a = 1 if it already saw the terminator.
+	verifEvStage2Exit
+	// VerifEvChunkQueued: ParseNDStream queued a chunk. a = address of its first byte, b = length.
+	verifEvChunkQueued
+	// VerifEvChunkParsed: a ParseNDStream chunk parser is about to hand over its result.
+	// a = address of the chunk's first byte, b = 1 on parse error.
+	verifEvChunkParsed
+)
+
+// Exported names of the events, for the harness.
+const (
+	VerifEvPath        = verifEvPath
+	VerifEvAcquire     = verifEvAcquire
+	VerifEvStrip       = verifEvStrip
+	VerifEvSend        = verifEvSend
+	VerifEvTerm        = verifEvTerm
+	VerifEvRelease     = verifEvRelease
+	VerifEvRecv        = verifEvRecv
+	VerifEvStage2Exit  = verifEvStage2Exit
+	VerifEvChunkQueued = verifEvChunkQueued
+	VerifEvChunkParsed = verifEvChunkParsed
+)
+
+// VerifPJ is an opaque handle on the parser instance an event belongs to.
+type VerifPJ struct{ p *internalParsedJson }
+
+// ID returns a value identifying the parser instance (0 if none).
+func (v VerifPJ) ID() uintptr { return uintptr(unsafe.Pointer(v.p)) }
+
+// ChanState returns the length and capacity of the instance's index channel.
+func (v VerifPJ) ChanState() (l, c int) {
+	if v.p == nil || v.p.indexChans == nil {
+		return 0, 0
+	}
+	return len(v.p.indexChans), cap(v.p.indexChans)
+}
+
+// VerifHook is the callback type. pj identifies the parser instance.
+type VerifHook func(ev VerifEvent, pj VerifPJ, a, b uint64, buf *[indexSize]uint32)
+
+var verifHook atomic.Pointer[VerifHook]
+
+// VerifSetHook installs (or with nil removes) the callback.
+func VerifSetHook(h VerifHook) {
+	if h == nil {
+		verifHook.Store(nil)
+		return
+	}
+	verifHook.Store(&h)
+}
+
+// VerifRingInfo returns the number of index buffers, their size and the fill limit.
+func VerifRingInfo() (slots, size, safeSize int) {
+	return indexSlots, indexSize, indexSizeWithSafetyBuffer
+}
+
+// VerifChanState returns the length and capacity of the index channel of pj, if it has one.
+func VerifChanState(pj *ParsedJson) (l, c int, ok bool) {
+	if pj == nil || pj.internal == nil || pj.internal.indexChans == nil {
+		return 0, 0, false
+	}
+	return len(pj.internal.indexChans), cap(pj.internal.indexChans), true
+}
+
+func verifEvent(ev VerifEvent, pj *internalParsedJson, a, b uint64, buf *[indexSize]uint32) {
+	if h := verifHook.Load(); h != nil {
+		(*h)(ev, VerifPJ{pj}, a, b, buf)
+	}
+}
+
+func verifB2U(b bool) uint64 {
+	if b {
+		return 1
+	}
+	return 0
+}
+
+func verifAddr(b []byte) uint64 {
+	if len(b) == 0 {
+		return 0
+	}
+	return uint64(uintptr(unsafe.Pointer(&b[0])))
+}
